@@ -466,9 +466,13 @@ class FnFacts:
 
     def _dsize(self, sl):
         up = sl.upper
+        cands = []
         if isinstance(up, ast.Name):
-            for d in self.defs.get(up.id, []):
-                v = d.value
+            cands = [d.value for d in self.defs.get(up.id, [])]
+        elif isinstance(up, ast.BinOp):
+            cands = [up]
+        if cands:
+            for v in cands:
                 if isinstance(v, ast.BinOp) and isinstance(v.op, ast.Add):
                     lo_txt = norm(sl.lower) if sl.lower is not None else "0"
                     sides = (v.left, v.right)
@@ -684,6 +688,10 @@ def decoder_scope(repo, col, which="chunks"):
                     how = how + "; " + how2
             if not ok and kind in ("div", "assert", "loop"):
                 ok2, how2 = _set_discharge(ff, node, kind, operand)
+                if ok2 is None:
+                    col.add("%s.%s" % (rule, kind), fn, text, True, how2,
+                            node=node, undecided=True)
+                    continue
                 if ok2:
                     ok, how = True, how2
                 else:
@@ -752,6 +760,16 @@ def _classify(scope, ff, fn, node, t):
         if ln in STRUCT_UNPACK and len(node.args) >= 2 and \
                 scope.expr_tainted(fn, node.args[1]):
             return ("unpack", ["struct.error"], node.args[1], norm(node)[:90])
+        # precompiled struct.Struct object kept in a module constant
+        if isinstance(node.func, ast.Attribute) and \
+                node.func.attr in ("unpack", "unpack_from") and \
+                isinstance(node.func.value, ast.Name) and node.args:
+            cv = fn.module.constants.get(node.func.value.id)
+            if isinstance(cv, ast.Call) and (
+                    fn.module.resolve(call_name(cv) or "") or "") == \
+                    "struct.Struct" and scope.expr_tainted(fn, node.args[0]):
+                return ("unpack", ["struct.error"], node.args[0],
+                        norm(node)[:90])
         if ln == "numpy.frombuffer" and node.args and \
                 scope.expr_tainted(fn, node.args[0]):
             return ("frombuffer", ["ValueError"], node.args[0],
@@ -907,6 +925,59 @@ def _reshape_discharge(scope, ff, node, operand, depth=0):
     return True, "D-size: operand size fixed by trusted bounds / exact guard"
 
 
+def _param_via_record(ff, name):
+    """`name` is a parameter and some caller passes a record field for it."""
+    if name not in ff.fn.params:
+        return False
+    idx = ff.fn.params.index(name)
+    for cfn, call in ff.scope.callers.get(ff.fn.key, []):
+        a = call.args[idx] if idx < len(call.args) else None
+        for k in call.keywords:
+            if k.arg == name:
+                a = k.value
+        if a is not None and _via_record(facts(ff.scope, cfn), a):
+            return True
+    return False
+
+
+def _derived_from_record(ff, name, depth=0):
+    """`name` is computed from names that come from a record field."""
+    if depth > 3:
+        return False
+    for d in ff.defs.get(name, []):
+        if d.value is None:
+            continue
+        for n in names_in(d.value):
+            if n == name:
+                continue
+            e = ast.Name(id=n, ctx=ast.Load())
+            if _via_record(ff, e) or _param_via_record(ff, n) or \
+                    _derived_from_record(ff, n, depth + 1):
+                return True
+        if any(_via_record(ff, x) for x in walk_local(d.value)
+               if isinstance(x, ast.Attribute)):
+            return True
+    return False
+
+
+_ARRAY_ATTRS = {"shape", "dtype", "itemsize", "size", "ndim", "nbytes"}
+
+
+def _via_record(ff, expr, depth=0):
+    """The value is read from a field of a local record object
+    (`header.bits` where header was built by a helper / namedtuple /
+    dataclass): value sets are not tracked through object fields."""
+    if isinstance(expr, ast.Attribute) and isinstance(expr.value, ast.Name) \
+            and expr.value.id not in ("self", "cls") and \
+            expr.attr not in _ARRAY_ATTRS:
+        return True
+    if isinstance(expr, ast.Name) and depth < 3:
+        ds = [d for d in ff.defs.get(expr.id, []) if d.value is not None]
+        return bool(ds) and any(_via_record(ff, d.value, depth + 1)
+                                for d in ds if d.index is None)
+    return False
+
+
 def _set_discharge(ff, node, kind, operand):
     if kind == "div" and operand.id in ff.fn.params and \
             ff.valueset(operand.id, node) is None:
@@ -921,6 +992,12 @@ def _set_discharge(ff, node, kind, operand):
                 continue
             cf = facts(ff.scope, cfn)
             s = cf.valueset(a.id, call) if isinstance(a, ast.Name) else None
+            if s is None and (_via_record(cf, a) or (
+                    isinstance(a, ast.Name) and
+                    _derived_from_record(cf, a.id))):
+                return None, "caller %s passes %s, a field of a record " \
+                    "object: value sets are not tracked through object " \
+                    "fields" % (cfn.key, norm(a))
             if s is None or 0 in s:
                 return False, "caller %s passes untrusted divisor %s%s" % (
                     cfn.key, norm(a), "" if s is None else
@@ -930,6 +1007,10 @@ def _set_discharge(ff, node, kind, operand):
                                              "all callers pass trusted values")
     if kind == "div":
         s = ff.valueset(operand.id, node)
+        if s is None and (_via_record(ff, operand) or _param_via_record(
+                ff, operand.id)):
+            return None, "divisor %s comes from a field of a record object" \
+                % operand.id
         if s is None:
             return False, "no finite value set for divisor %s" % operand.id
         if 0 in s:
@@ -942,6 +1023,9 @@ def _set_discharge(ff, node, kind, operand):
             s = ff.valueset(nm, node)
             if s is not None and ff.pred_true_on(operand, nm, s):
                 return True, "D-set: holds for every %s in %s" % (nm, sorted(s))
+        if any(_via_record(ff, ast.Name(id=nm, ctx=ast.Load())) or
+               _param_via_record(ff, nm) for nm in nms):
+            return None, "asserted value comes from a field of a record object"
         return False, "assertion over untrusted data is not implied by a " \
             "preceding guard"
     if kind == "loop":
@@ -950,6 +1034,12 @@ def _set_discharge(ff, node, kind, operand):
         for nm in nms:
             if nm in ff.scope.taint[ff.fn.key]:
                 s = ff.valueset(nm, node)
+                if s is None and (_via_record(ff, ast.Name(id=nm,
+                                                           ctx=ast.Load()))
+                                  or _param_via_record(ff, nm)
+                                  or _derived_from_record(ff, nm)):
+                    return None, "loop extent %s derives from a field of a " \
+                        "record object" % nm
                 if s is None:
                     return False, "loop extent %s is untrusted and unbounded" \
                         % nm
